@@ -35,6 +35,10 @@ def ref_key(op: Dict[str, Any], handle_contract: Dict[str, str]) -> Optional[Tup
     return None
 
 
+def groupx_id(op: Dict[str, Any]) -> str:
+    return hashlib.sha256(op["yaml"].encode()).hexdigest()[:24]
+
+
 def handle_map(ops: List[Dict[str, Any]]) -> Dict[str, str]:
     """handle -> contract id, from the operation list alone (known before the session runs)."""
     m: Dict[str, str] = {}
@@ -57,6 +61,7 @@ class RefStore:
         self.pending: Dict[Tuple, Dict[str, Any]] = {}
         self.sessions = 0
         self.group_ops: Dict[str, Dict[str, Any]] = {}
+        self.groupx_ops: Dict[str, Dict[str, Any]] = {}
 
     # ------------------------------------------------------------------ spec of a reference
     def spec_for(self, key: Tuple, full: bool = False) -> Dict[str, Any]:
@@ -93,6 +98,16 @@ class RefStore:
             g["dets"] = [key[2]] if key[2] else []
             ops = [g]
             tgt = 0
+        elif kind == "groupx":
+            # exactly this config text (the order of its functions and operations included)
+            g = dict(self.groupx_ops[key[1]])
+            g.pop("h", None)
+            g.pop("fault", None)
+            g.pop("printers", None)
+            g["s1"] = "id"
+            g["dets"] = [key[2]] if key[2] else []
+            ops = [g]
+            tgt = 0
         else:
             raise ValueError(key)
         spec: Dict[str, Any] = {"ops": ops, "s1": "id", "immut": False}
@@ -112,8 +127,10 @@ class RefStore:
                 self.need(("count", op["c"]))
             if op["op"] == "group":
                 self.group_ops[op["canon"]] = op
+                self.groupx_ops[groupx_id(op)] = op
                 for d in op.get("dets", []):
                     self.need(("group", op["canon"], d))
+                    self.need(("groupx", groupx_id(op), d))
             self.need(ref_key(op, hm))
 
     # ------------------------------------------------------------------ compute
